@@ -11,6 +11,8 @@ import (
 	"github.com/tidwall/geojson/geometry"
 	"pgregory.net/rapid"
 	"verifharness/fw"
+	"verifharness/kf"
+	"verifharness/sphere"
 )
 
 type c10Case struct {
@@ -337,6 +339,9 @@ func c10Check(c c10Case) fw.Outcome {
 			label += "/readings-differ"
 			continue // a Feature wrapping a collection: the two readings of "part" disagree, unasserted
 		}
+		if r.got != r.coarse && kf.Enabled("C10", "KF-CIRCLE-APPROX") && (c10CircleSliver(&c.Probe, &c.Coll) || c10CircleSliver(&c.Coll, &c.Probe)) {
+			return fw.Outcome{Label: label, Known: "KF-CIRCLE-APPROX", Fail: "known"}
+		}
 		if r.got != r.coarse {
 			return fw.Failf(label, "%s = %v, composition of the children gives %v; collection %s probe %s", r.name, r.got, r.coarse, collObj.JSON(), probeObj.JSON())
 		}
@@ -364,8 +369,12 @@ func genC10Leaf(t *rapid.T, parseable bool) objSpec {
 	s := objSpec{Kind: rapid.SampledFrom(kinds).Draw(t, "leafkind")}
 	switch s.Kind {
 	case "Circle": // one position, a rectangle several lattice units wide: found by a search that misses its centre
+		// (with 50 km the disc holds the centre only, with 160 km the four neighbours as well, both with the rim well away
+		// from every lattice point; with 400 km the lattice offset (2,3) falls into the 0.12 % sliver between the disc and
+		// its 64-gon, where the library answers by distance for a point as the direct operand and by polygon through a
+		// collection - the listed finding KF-CIRCLE-APPROX, modelled by c10CircleSliver)
 		s.Pts = []fpt{{F(rapid.IntRange(3, 11).Draw(t, "clx")), F(rapid.IntRange(3, 11).Draw(t, "cly"))}}
-		s.Radius = F(rapid.SampledFrom([]float64{0, 30000, 120000, 250000, 400000}).Draw(t, "clr"))
+		s.Radius = F(rapid.SampledFrom([]float64{0, 50000, 160000, 400000}).Draw(t, "clr"))
 		s.Steps = 64
 	case "Point", "SimplePoint":
 		s.Pts = []fpt{lp("p")}
@@ -553,6 +562,47 @@ func c10Subs() []fw.Sub {
 		},
 		Gen: c10Gen, Check: c10Check,
 	}}
+}
+
+// c10CircleSliver is the input-side model of the listed finding KF-CIRCLE-APPROX as it shows in a composition: some
+// point-like part of x (a Point, a SimplePoint, a position of a MultiPoint) lies where a Circle of y answers differently
+// by distance (as the direct operand) and by its 64-gon (reached through a collection): inside the disc and outside the
+// polygon, or the reverse.
+func c10CircleSliver(x, y *objSpec) bool {
+	var circles []*objSpec
+	var walkC func(o *objSpec)
+	walkC = func(o *objSpec) {
+		if o.Kind == "Circle" && len(o.Pts) > 0 {
+			circles = append(circles, o)
+		}
+		for i := range o.Children {
+			walkC(&o.Children[i])
+		}
+	}
+	walkC(y)
+	var pts []fpt
+	var walkP func(o *objSpec)
+	walkP = func(o *objSpec) {
+		switch o.Kind {
+		case "Point", "PointZ", "SimplePoint", "MultiPoint":
+			pts = append(pts, o.Pts...)
+		}
+		for i := range o.Children {
+			walkP(&o.Children[i])
+		}
+	}
+	walkP(x)
+	for _, c := range circles {
+		centre := c.Pts[0].g()
+		poly := geojson.NewCircle(centre, float64(c.Radius), c.Steps).Polygon()
+		for _, p := range pts {
+			d := sphere.Distance(centre.Y, centre.X, float64(p.Y), float64(p.X))
+			if (d <= float64(c.Radius)) != poly.Contains(geojson.NewPoint(p.g())) {
+				return true
+			}
+		}
+	}
+	return false
 }
 
 func TestC10(t *testing.T) { fw.Main(t, "C10", c10Subs(), nil) }
